@@ -402,3 +402,19 @@ MUTANTS += [
     dict(name='copy-scale-count-for-bytes', props=['C04', 'C01'], rule='R-COPY-SCALE', expect=1, edits=[dict(patch='seeded/C04-r4-3/patch.diff')]),
     dict(name='copy-scale-not-setavail', props=['C03', 'C10', 'C11', 'C16'], rule=None, expect=0, edits=[dict(patch='seeded/C04-r4-3/patch.diff')]),
 ]
+
+MUTANTS += [
+    # ---- R-FPRANGE
+    M('fprange-divisor', 'C19', RAND, '(double) 0x7FFFFFFF));', '(double) 0x7FFFFFFE));', 'R-FP'),
+]
+
+MUTANTS += [
+    # ---- R-SOLVER-RANGES
+    M('solver-pivot-skips-row-i', ['C18', 'C03'], MLTOOL, '	for (j = i; j < p; j++)\n	{\n		if (of_mod2_getbit(m->row[j][w0], b0))\n			break;', '	for (j = i + 1; j < p; j++)\n	{\n		if (of_mod2_getbit(m->row[j][w0], b0))\n			break;', 'R-SOLVER-RANGES'),
+    M('solver-elim-stops-early', ['C18', 'C03'], MLTOOL, '	for (j = i + 1; j < p; j++)\n	{\n		if (of_mod2_getbit(m->row[j][w0], b0))\n		{', '	for (j = i + 1; j < p - 1; j++)\n	{\n		if (of_mod2_getbit(m->row[j][w0], b0))\n		{', 'R-SOLVER-RANGES'),
+    M('solver-xor-from-next-word', ['C18'], MLTOOL, '			for (k = w0; k < w; k++)', '			for (k = w0 + 1; k < w; k++)', 'R-SOLVER-RANGES'),
+    M('solver-backsub-skips-next', ['C18'], MLTOOL, '			for (j = i + 1; j < n; j++)\n			{\n				w0 = j >> of_mod2_wordsize_shift;', '			for (j = i + 2; j < n; j++)\n			{\n				w0 = j >> of_mod2_wordsize_shift;', 'R-SOLVER-RANGES'),
+    M('solver-fail-one-early', ['C18'], MLTOOL, '	if (j == p)\n	{\n		/* it', '	if (j >= p - 1)\n	{\n		/* it', 'R-SOLVER-RANGES'),
+    M('benign-solver-xor-from-zero', ['C18'], MLTOOL, '			for (k = w0; k < w; k++)', '			for (k = 0; k < w; k++)', expect=0),
+    M('benign-solver-fail-ge', ['C18'], MLTOOL, '	if (j == p)\n	{\n		/* it', '	if (j >= p)\n	{\n		/* it', expect=0),
+]
